@@ -32,7 +32,7 @@ def table():
         if dmg is not None:
             m["default_must_getter"] = dmg
         if meta:
-            m.update({"pkg": "mypkg", "container_type": "MyC", "container_constructor": "Build"})
+            m.update({"pkg": "myPkg_2", "container_type": "MyC", "container_constructor": "Build"})
         cfg = {"meta": m, "services": {"s": s, "other": {"constructor": "fx.NewC", "getter": "Other", "scope": "non_shared"}, "bad": {"constructor": "fx.NewFail", "getter": "Bad"},
                                        # a contextual service: the InContext getters must use THEIR context, the plain ones none
                                        "cx": {"constructor": "fx.NewA", "arguments": ["ctx"], "getter": "Cx", "must_getter": True, "scope": "contextual"}}}
@@ -85,7 +85,7 @@ def run(ctx):
     for sub in itertools.product([False, True], repeat=3):
         mt = {"imports": {"fx": gen.FX}}
         if sub[0]:
-            mt["pkg"] = "mypkg"
+            mt["pkg"] = "myPkg_2"
         if sub[1]:
             mt["container_type"] = "Registry"
         if sub[2]:
@@ -97,7 +97,7 @@ def run(ctx):
             if len(corr_fail) < 10:
                 corr_fail.append({"op": "compile:" + x[0], "files": [gen.yaml_doc(cfg)], "impl": x[1], "model": x[2]})
         om = (a.get("output") or {}).get("meta") or {}
-        want = {"pkg": "mypkg" if sub[0] else "main", "containerType": "Registry" if sub[1] else "Gontainer", "containerConstructor": "Build" if sub[2] else "NewGontainer"}
+        want = {"pkg": "myPkg_2" if sub[0] else "main", "containerType": "Registry" if sub[1] else "Gontainer", "containerConstructor": "Build" if sub[2] else "NewGontainer"}
         got = {k: om.get(k) for k in want}
         if got != want:
             violations.append({"sig": "meta-names", "what": "meta names %r compile to %r; configured names or the documented defaults main / Gontainer / NewGontainer would be %r" % ({k: v for k, v in mt.items() if k != "imports"}, got, want), "files": [gen.yaml_doc(cfg)]})
